@@ -5,6 +5,7 @@ open VibeProof.Proto VibeProof.Wire VibeProof.Auth
 /-! C29 driver.  Byte strings are hex atoms (`-` = empty).
   `md5 HEX` → HEX digest;  `md5pw PW USER SALT` → HEX of the 32 hex characters;
   `verifymd5 ((USER STORED) …) USER RESP SALT` → `1`/`0`;
+  `login password|md5 ((USER STORED) …) USER DATABASE SECRET SALT PARSE_OK VERIFY_OK` → `1`/`0`;
   `verifyclear ((USER STORED) …) USER PW PARSE_OK VERIFY_OK` → `1`/`0`, where the two flags are
   what the argon2 crate answers for the stored string of USER (`PasswordHash::new(..).is_ok()`,
   `verify_password(..).is_ok()`), i.e. the `CryptoOps` the decision logic is run with. -/
@@ -42,6 +43,12 @@ def handle : List Sx → Sx
     match decStore st, unhexAtom u, unhexAtom p with
     | some st, some u, some p => sxBool (verifyCleartext (flagOps (po == "1") (vo == "1")) st u p)
     | _, _, _ => .atom "bad-request"
+  | [.atom "login", .atom m, st, u, db, sec, salt, .atom po, .atom vo] =>
+    match decStore st, unhexAtom u, unhexAtom db, unhexAtom sec, unhexAtom salt with
+    | some st, some u, some db, some sec, some salt =>
+      let method := if m == "md5" then AuthMethod.md5 else AuthMethod.password
+      sxBool (login (flagOps (po == "1") (vo == "1")) method st u db sec salt)
+    | _, _, _, _, _ => .atom "bad-request"
   | _ => .atom "bad-request"
 
 def main : IO Unit := runDriver handle
